@@ -216,8 +216,6 @@ def run(ctx):
     c = corrs[0][2] if corrs else K.Corr()
     mism = set(c.mismatch)
     for i, why in unexplained[:1]:
-        if i in mism and getattr(ctx, "pending_mismatch", None) is not None:
-            continue
         cs = K.case_of(c, i)
         rep = K.case_replay(c, cs, upto=i)
         rep.update({"correspondence": "C08", "oracle": why})
